@@ -22,8 +22,9 @@ func init() {
 			"(R8) error discipline over package config: " + repoErrText + ". " +
 			"(R9) validateValue consults the allowed-values list for every value it accepts: scalar values before any value cache is built, and every entry of a string list that is matched against the regex is also checked against the allowed values before the next entry. " +
 			"(R10) the per-option step of ReplaceConfig/ReplaceDefaultConfig writes the layer field on every path (nil or the validated value): an option whose entry is missing or invalid must not keep the previous layer's value. " +
+			"(R11) errors turned into success (A13) over package config: only a missing file (fs.ErrNotExist) is tolerated when loading at start; " +
 			"NOT decided: JSON encode->decode equality of values, semantics of validation functions/regexes, real setter/getter interleavings (R2-R4 are the protocol's necessary order/lock facts).",
-		Rules: []ruleFn{c04R1, c04R2, c04R3, c04R4, c04R5, c04R6, c04R9, c04R10,
+		Rules: []ruleFn{c04R1, c04R2, c04R3, c04R4, c04R5, c04R6, c04R9, c04R10, c04R11,
 			lockRuleFor("C04-R7", 20, []string{"config"}, []string{}, map[string]string{}),
 			repoErrRuleFor("C04-R8", 25, func(c *Ctx, fn *ssa.Function) bool { return short(fn.Pkg.Pkg.Path()) == "config" }, map[string]string{"config.AddToDebugInfo / config.ForEachOption": "the callback never returns an error", "config.GetActiveConfigValues / config.ForEachOption": "the callback never returns an error"})},
 	})
